@@ -162,6 +162,7 @@ def run_case(case, ctx):
                                 f"{[dsops.ex_id_of(e) for e in got][:12]}, a "
                                 f"fresh one {ids[:12]}")
             ctx.count("prefixes")
+            ctx.evaluated()
             ctx.label("iface=" + iface)
             if s >= 2:
                 ctx.nontrivial([
